@@ -48,6 +48,7 @@ theorem Aux.congr {a a' : Actor} {s : St} (h1 : a'.sigVal = a.sigVal) (h2 : a'.s
 @[simp] theorem next_callRet (s : St) (k : Nat) (r : CallRes) : next s (.callRet k r) = .ok s := rfl
 @[simp] theorem next_waitRet (s : St) (w : Nat) (b : Bool) : next s (.waitRet w b) = .ok s := rfl
 @[simp] theorem next_snap (s : St) (sn : Snap) : next s (.snap sn) = .ok s := rfl
+@[simp] theorem next_isLocal (s : St) : next s .isLocal = .ok s := rfl
 @[simp] theorem next_stopRet (s : St) (b : Bool) (r : Reason) (ok : Bool) :
     next s (.stopRet b r ok) = .ok (if ok then { s with stopReq := true } else s) := by
   cases ok <;> rfl
@@ -475,7 +476,7 @@ theorem next_enter_of_isOpen (s : St) (cb : Cb) (a : Arg) (h : s.stage.isOpen = 
   cases hs : s.stage <;> simp [hs, Stage.isOpen] at h <;> cases cb <;> simp [next, hs]
 
 theorem opSpawn_sim (a : Actor) (s : St) (sup : Option Nat) (name : Option String) (nameFree : Bool)
-    (h : Inv a s) : Sim next Inv s (opSpawn a sup name nameFree) := by
+    (isLocal supOk : Bool) (h : Inv a s) : Sim next Inv s (opSpawn a sup name nameFree isLocal supOk) := by
   unfold opSpawn
   split
   · rename_i hph
@@ -484,8 +485,18 @@ theorem opSpawn_sim (a : Actor) (s : St) (sup : Option Nat) (name : Option Strin
     rcases h with h | ⟨hs, hx⟩
     · simp [hph] at h
     · rw [hph] at hs
-      refine ⟨{ s with stage := .preOpen }, by simp [accepts_cons, next, show s.stage = .init from hs], Or.inr ⟨by simp [stageRel], ?_⟩⟩
-      exact ⟨by simpa using hx.kill, by simpa using hx.stop, by simpa using hx.drain⟩
+      have hinit : s.stage = .init := hs
+      have hnew : ∀ a' : Actor, a'.phase = .pre → a'.sigVal = a.sigVal → a'.stopVal = a.stopVal →
+          a'.msgQ = a.msgQ → Inv a' { s with stage := .preOpen } := by
+        intro a' h0 h1 h2 h3
+        exact Or.inr ⟨by rw [h0]; rfl, by rw [h1]; exact hx.kill, by rw [h2]; exact hx.stop, by rw [h3]; exact hx.drain⟩
+      split
+      · split
+        · split
+          · exact ⟨s, by simp [accepts_cons], Or.inr ⟨by rw [hph]; exact hs, hx⟩⟩
+          · exact ⟨{ s with stage := .preOpen }, by simp [accepts_cons, next, hinit], hnew _ rfl rfl rfl rfl⟩
+        · exact ⟨{ s with stage := .preOpen }, by simp [accepts_cons, next, hinit], hnew _ rfl rfl rfl rfl⟩
+      · exact ⟨{ s with stage := .preOpen }, by simp [accepts_cons, next, hinit], hnew _ rfl rfl rfl rfl⟩
   · exact ⟨s, rfl, h⟩
 
 theorem opPollSpawn_sim (a : Actor) (s : St) (supOk : Bool) (h : Inv a s) :
@@ -629,7 +640,7 @@ theorem envOp_sim (a : Actor) (s : St) (op : AOp) (h : Inv a s) : Sim next Inv s
 
 theorem stepCore_sim (a : Actor) (s : St) (op : AOp) (h : Inv a s) : Sim next Inv s (a.stepCore op) := by
   cases op with
-  | spawn sup name nameFree => exact opSpawn_sim a s sup name nameFree h
+  | spawn sup name nameFree isLocal supOk => exact opSpawn_sim a s sup name nameFree isLocal supOk h
   | pollSpawn supOk => exact opPollSpawn_sim a s supOk h
   | dropSpawn => exact opDropSpawn_sim a s h
   | poll => exact opPoll_sim a s h
